@@ -256,6 +256,11 @@ func evalC17Unit(c c17Unit, o *Obs) error {
 	if got := a.ToUnit(u); got != want {
 		return fmt.Errorf("Amount(%d).ToUnit(%d) = %v (%#x), correctly rounded quotient is %v (%#x)", c.A, c.U, got, math.Float64bits(got), want, math.Float64bits(want))
 	}
+	// ToBCH is the conversion to the BCH unit: the correctly rounded quotient as well, not merely something that
+	// happens to round-trip
+	if wantBCH, _ := new(big.Rat).Mul(new(big.Rat).SetInt64(c.A), pow10Rat(-8)).Float64(); a.ToBCH() != wantBCH {
+		return fmt.Errorf("Amount(%d).ToBCH() = %v (%#x), correctly rounded quotient is %v (%#x)", c.A, a.ToBCH(), math.Float64bits(a.ToBCH()), wantBCH, math.Float64bits(wantBCH))
+	}
 	// printed text (results are kept while further amounts are formatted: strings are values)
 	text := a.Format(u)
 	keep := strings.Clone(text)
